@@ -111,3 +111,49 @@ pub proof fn lemma_ups_acc_take(acc: Seq<u8>, s: Seq<UserProperty>, i: int)
     assert(s.take(i + 1).drop_last() =~= s.take(i));
     assert(s.take(i + 1).last() == s[i]);
 }
+
+// ===================================================================
+// decoding of one property value, by wire type (MQTT 5.0 §2.2.2.2; "it is a Protocol Error to include X more than
+// once" -> DuplicatedProperty; Byte properties with values other than 0/1 -> InvalidByteProperty)
+// ===================================================================
+pub open spec fn step_bool(s: Seq<u8>, id: PropertyId, cur: Option<bool>) -> PR<bool, ErrorV5> {
+    if cur is Some { PR::Err(ErrorV5::DuplicatedProperty(id)) }
+    else if s.len() < 1 { PR::Inc }
+    else if s[0] > 1 { PR::Err(ErrorV5::InvalidByteProperty(id, s[0])) }
+    else { PR::Ok(s[0] == 1, 1) }
+}
+pub open spec fn step_qos(s: Seq<u8>, id: PropertyId, cur: Option<QoS>) -> PR<QoS, ErrorV5> {
+    if cur is Some { PR::Err(ErrorV5::DuplicatedProperty(id)) }
+    else if s.len() < 1 { PR::Inc }
+    else if s[0] > 1 { PR::Err(ErrorV5::InvalidByteProperty(id, s[0])) }
+    else { PR::Ok(if s[0] == 0 { QoS::Level0 } else { QoS::Level1 }, 1) }
+}
+pub open spec fn step_u16(s: Seq<u8>, id: PropertyId, cur: Option<u16>) -> PR<u16, ErrorV5> {
+    if cur is Some { PR::Err(ErrorV5::DuplicatedProperty(id)) } else { pr_map_err(p_u16(s)) }
+}
+pub open spec fn step_u32(s: Seq<u8>, id: PropertyId, cur: Option<u32>) -> PR<u32, ErrorV5> {
+    if cur is Some { PR::Err(ErrorV5::DuplicatedProperty(id)) } else { pr_map_err(p_u32(s)) }
+}
+pub open spec fn step_str(s: Seq<u8>, id: PropertyId, cur: Option<Arc<String>>) -> PR<Arc<String>, ErrorV5> {
+    if cur is Some { PR::Err(ErrorV5::DuplicatedProperty(id)) }
+    else { match p_str(s) { PR::Inc => PR::Inc, PR::Err(e) => PR::Err(ErrorV5::Common(e)), PR::Ok(v, n) => PR::Ok(Arc::new(mk_string(v)), n) } }
+}
+pub open spec fn step_topic(s: Seq<u8>, id: PropertyId, cur: Option<TopicName>) -> PR<TopicName, ErrorV5> {
+    if cur is Some { PR::Err(ErrorV5::DuplicatedProperty(id)) }
+    else { match p_str(s) { PR::Inc => PR::Inc, PR::Err(e) => PR::Err(ErrorV5::Common(e)),
+        PR::Ok(v, n) => match topic_name_of(v) { Ok(t) => PR::Ok(t, n), Err(_e) => PR::Err(ErrorV5::InvalidResponseTopic) } } }
+}
+pub open spec fn step_bin(s: Seq<u8>, id: PropertyId, cur: Option<Bytes>) -> PR<Bytes, ErrorV5> {
+    if cur is Some { PR::Err(ErrorV5::DuplicatedProperty(id)) }
+    else { match p_bin(s) { PR::Inc => PR::Inc, PR::Err(e) => PR::Err(ErrorV5::Common(e)), PR::Ok(v, n) => PR::Ok(mk_bytes(v), n) } }
+}
+pub open spec fn step_varint(s: Seq<u8>, id: PropertyId, cur: Option<VarByteInt>) -> PR<VarByteInt, ErrorV5> {
+    if cur is Some { PR::Err(ErrorV5::DuplicatedProperty(id)) }
+    else { match p_varint(s) { PR::Inc => PR::Inc, PR::Err(e) => PR::Err(ErrorV5::Common(e)),
+        PR::Ok(v, n) => match var_byte_int_of(v) { Ok(x) => PR::Ok(x, n), Err(e) => PR::Err(e) } } }
+}
+pub open spec fn step_up(s: Seq<u8>) -> PR<UserProperty, ErrorV5> {
+    match p_str(s) { PR::Inc => PR::Inc, PR::Err(e) => PR::Err(ErrorV5::Common(e)),
+        PR::Ok(a, n1) => match p_str(s.skip(n1 as int)) { PR::Inc => PR::Inc, PR::Err(e) => PR::Err(ErrorV5::Common(e)),
+            PR::Ok(b, n2) => PR::Ok(UserProperty { name: Arc::new(mk_string(a)), value: Arc::new(mk_string(b)) }, n1 + n2) } }
+}
